@@ -103,7 +103,18 @@ func readRecordsStyle(path string, cols []OutCol, st OutStyle, csv bool, dateCol
 				r.fields = strings.Fields(l)
 			}
 		}
-		if dateCol >= 0 && dateCol < len(r.fields) {
+		if dateCol >= 0 && !csv && !r.fixedW {
+			// a value did not fit its column (the line is longer than the configured widths): the columns cannot be cut by
+			// position and empty text fields leave no token, so the date is the first token that reads as a date
+			r.zeit = -1
+			for _, f := range r.fields {
+				if d, ok := parseModelDate(f, format, divideCentury); ok {
+					r.date = d
+					r.zeit = d.Zeit()
+					break
+				}
+			}
+		} else if dateCol >= 0 && dateCol < len(r.fields) {
 			if d, ok := parseModelDate(r.fields[dateCol], format, divideCentury); ok {
 				r.date = d
 				r.zeit = d.Zeit()
